@@ -373,6 +373,21 @@ def run_unit(unit, tier):
                     mixed = ('CDI' * blen)[:blen]
                     one(build_hunk(mixed, None, so, so, False, None, b'y') +
                         [b'tail'], True, True)
+        from mc.alphabets import BOUNDARY_SIZES_Q
+        for n in BOUNDARY_SIZES_Q + [100000]:
+            long_ = b'y' * n
+            for ig in (False, True):
+                # long payloads in a well-formed hunk
+                one([b'@@ -1,2 +1,2 @@ ' + long_, b' ' + long_, b'-' + long_,
+                     b'+' + long_], ig, True)
+                # the offending line is long: bad line, premature end,
+                # interrupting header, garbage before / after
+                one([b'@@ -10,3 +10,3 @@', b' ctx', b'-old', long_], ig, True)
+                one([b'@@ -10,3 +10,3 @@', b' ctx', b'-old', b'+' + long_],
+                    ig, True)
+                one([b'@@ -10,3 +10,3 @@', b' ctx',
+                     b'@@ -20 +20 @@ ' + long_], ig, True)
+                one([long_, b'@@ -1 +1 @@', b'-a', b'+b', long_], ig, True)
         acc.sample({'scale': 'up to 3000 hunks, bodies up to 10000 lines, '
                              'start lines up to 2**63'}, 1)
     else:
